@@ -124,7 +124,7 @@ PROPS = {
         'assumptions': ['the header page accesses (two AtomicUsize stores/loads) are run, not modelled beyond nvmHeaderOk'],
     },
     'C12': {
-        'oracles': ['C12', 'C02'],
+        'oracles': ['C12', 'C02'], 'bv_decide': True,
         'geoms': {'quick': ['default', 'th1'], 'thorough': ALLG},
         'runs': {'quick': [seq('lower', 40, 150)], 'thorough': [seq('lower', 1500, 300), conc(20, 100, 50, 0, kind=2)]},
         'rule': ('crafted lower metadata satisfying the invariant (per huge frame: allocated whole / empty / full / aligned '
